@@ -47,7 +47,11 @@ type Frame struct {
 	ct     *Contract                // contract being verified when this is the top frame
 	unroll int                      // loop header visits on this path (unrolling guard)
 	visits map[*ssa.BasicBlock]int  // bounded runs: visits of each loop header since its loop was entered
+	lockKey    map[*ssa.BasicBlock]string // lockstep: name of the cut of each loop header on this path
+	lockPerm   map[*ssa.BasicBlock][]int  // lockstep: position of each header phi in the common order
 	rangeAlias map[*ssa.BasicBlock]bool // counting loops whose variable is also visible as rangeindex+1
+	iterSig map[*ssa.BasicBlock]string // bounded runs: branches taken in the current iteration of each loop
+	prevSig map[*ssa.BasicBlock]string // ... and in the previous one
 	forked map[*ssa.BasicBlock]bool // bounded runs: loops (by header) inside which a symbolic branch was forked
 	skipHeader *ssa.BasicBlock      // header whose loop-cut processing was just done
 	preSt  []*State                 // states at entry of the cut loops (innermost last)
@@ -76,6 +80,28 @@ func (f *Frame) clone() *Frame {
 		}
 	}
 	n.rangeAlias = f.rangeAlias
+	if f.lockKey != nil {
+		n.lockKey = make(map[*ssa.BasicBlock]string, len(f.lockKey))
+		for k, v := range f.lockKey {
+			n.lockKey[k] = v
+		}
+		n.lockPerm = make(map[*ssa.BasicBlock][]int, len(f.lockPerm))
+		for k, v := range f.lockPerm {
+			n.lockPerm[k] = v
+		}
+	}
+	if f.iterSig != nil {
+		n.iterSig = make(map[*ssa.BasicBlock]string, len(f.iterSig))
+		for k, v := range f.iterSig {
+			n.iterSig[k] = v
+		}
+	}
+	if f.prevSig != nil {
+		n.prevSig = make(map[*ssa.BasicBlock]string, len(f.prevSig))
+		for k, v := range f.prevSig {
+			n.prevSig[k] = v
+		}
+	}
 	if f.forked != nil {
 		n.forked = make(map[*ssa.BasicBlock]bool, len(f.forked))
 		for k, v := range f.forked {
@@ -113,6 +139,15 @@ type Exec struct {
 	baseRun   bool // executing a baseline copy: dynamic dispatch prefers the copied methods
 	active    map[*ssa.Function]int
 	eqAbstract func(*ssa.Function) (string, int) // bounded equivalence runs: how a call is treated
+	// lockstep loop induction (equiv.go): loops that depend on symbolic data are cut in both
+	// versions at the same arbitrary loop-head state instead of being unrolled
+	lockstep    bool
+	lockRunB    bool                   // executing the baseline copy
+	lockLoops   map[string]bool        // loops (function#ordinal, prefix stripped) to cut
+	lockEntries []lockRec              // states in which the cut loops were reached
+	lockSigs    map[string][]phiSig    // run A: the loop-carried variables of each cut loop
+	lockShared  map[*Cell]bool         // cells both runs know (entry cells, regions)
+	symLoops    map[string]bool        // bounded runs: loops inside which a symbolic branch was forked
 	deadline  time.Time // bounded runs: symbolic execution gives up after this instant
 	steps     int
 	mergeCallMax int
@@ -1677,8 +1712,8 @@ func (x *Exec) runInstrs(st *State, fr *Frame, b *ssa.BasicBlock, idx int, prev 
 			fr2 := fr.clone()
 			st1.assume(c)
 			st2.assume(mkNot(c))
-			x.boundedFork(fr, b)
-			x.boundedFork(fr2, b)
+			x.boundedFork(fr, b, 0)
+			x.boundedFork(fr2, b, 1)
 			res := x.run(st1, fr, b.Succs[0], 0, b)
 			res = append(res, x.run(st2, fr2, b.Succs[1], 0, b)...)
 			return nil, nil, nil, res, true
